@@ -31,31 +31,32 @@ type CallAssert struct {
 }
 
 type Contract struct {
-	Pkg      string // package path
-	Key      string // e.g. "(*ProofD).correctResponseSizes" or "HashCommit"
-	File     string
-	Line     int
-	Props    []string
-	Safety   []string // properties the safety obligations are charged to (default Props)
-	Requires []Clause
-	Ensures  []Clause
-	MustFail []Clause
-	Modifies []ModLoc
-	ModAny   bool // no modifies clause given: treated as "modifies everything reachable" for callers (havoc all)
-	ModGiven bool
-	LoopInv  map[int][]Clause
-	LoopMod  map[int][]ModLoc
-	Asserts  []CallAssert
-	Trusted  string
-	NoPanic  bool // default true: safety obligations generated
-	Fresh    bool // result is freshly allocated (shorthand)
-	Pure     bool
-	Assumes  []Clause // assumed at entry but NOT required from callers (listed as assumptions)
-	Lemmas   []LemmaUse
-	Inline   bool
-	Uses     []string
-	Missing  bool
-	Fn       *ssa.Function
+	Pkg         string // package path
+	Key         string // e.g. "(*ProofD).correctResponseSizes" or "HashCommit"
+	File        string
+	Line        int
+	Props       []string
+	Safety      []string // properties the safety obligations are charged to (default Props)
+	Requires    []Clause
+	Ensures     []Clause
+	MustFail    []Clause
+	Modifies    []ModLoc
+	ModAny      bool // no modifies clause given: treated as "modifies everything reachable" for callers (havoc all)
+	ModGiven    bool
+	LoopInv     map[int][]Clause
+	LoopMod     map[int][]ModLoc
+	Asserts     []CallAssert
+	Trusted     string
+	NoPanic     bool // default true: safety obligations generated
+	Fresh       bool // result is freshly allocated (shorthand)
+	Pure        bool
+	Assumes     []Clause // assumed at entry but NOT required from callers (listed as assumptions)
+	Lemmas      []LemmaUse
+	Inline      bool
+	Uses        []string
+	Missing     bool
+	AssumeFrame string
+	Fn          *ssa.Function
 }
 
 type LemmaUse struct {
@@ -86,7 +87,8 @@ type ContractSet struct {
 	Preds    map[string]*Pred     // by name (global)
 	Impl     map[string][]string  // interface (pkgpath.Name) -> implementer type strings
 	Axioms   []*Axiom
-	Uninterp map[string]int // declared spec functions: name -> arity (Int...->Int); "name?" -> Bool
+	Uninterp map[string]int      // declared spec functions: name -> arity (Int...->Int); "name?" -> Bool
+	Globals  map[string][]Clause // package path -> global invariants assumed at function entry
 }
 
 var reClauseHead = regexp.MustCompile(`^(requires|ensures|mustfail|assume)(\[[A-Z0-9, ]+\])?\s+(?:([A-Za-z0-9_\-]+):\s+)?(.*)$`)
@@ -148,7 +150,7 @@ func LoadContracts(cs *ContractSet, pkgPath, file string) error {
 		line int
 	}
 	var logical []ll
-	kw := regexp.MustCompile(`^(func|property|safety|requires|ensures|mustfail|assume|modifies|loop|trusted|assert|pred|implementers|axiom|lemma|fresh|pure|declare|inline|nopanic|uses)\b`)
+	kw := regexp.MustCompile(`^(func|property|safety|requires|ensures|mustfail|assume|modifies|loop|trusted|assert|pred|implementers|axiom|lemma|fresh|pure|declare|inline|nopanic|uses|global|assumeframe)\b`)
 	for i, l := range lines {
 		t := strings.TrimSpace(l)
 		if !strings.HasPrefix(t, "//@") {
@@ -235,6 +237,12 @@ func LoadContracts(cs *ContractSet, pkgPath, file string) error {
 				}
 			}
 			cs.Axioms = append(cs.Axioms, &Axiom{Pkg: pkgPath, Name: m[1], Src: m[3], E: e, Vars: vs})
+		case "global":
+			e, err := ParseSpec(rest)
+			if err != nil {
+				return fail(err)
+			}
+			cs.Globals[pkgPath] = append(cs.Globals[pkgPath], Clause{Label: fmt.Sprintf("g%d", len(cs.Globals[pkgPath])), Src: rest, E: e, Line: l.line})
 		case "implementers":
 			// implementers Proof: *ProofD, *ProofU
 			i := strings.Index(rest, ":")
@@ -265,6 +273,11 @@ func LoadContracts(cs *ContractSet, pkgPath, file string) error {
 				cur.Fresh = true
 			case "pure":
 				cur.Pure = true
+			case "assumeframe":
+				cur.AssumeFrame = rest
+				if rest == "" {
+					cur.AssumeFrame = "(no reason given)"
+				}
 			case "inline":
 				cur.Inline = true
 			case "uses":
@@ -380,5 +393,5 @@ func LoadContracts(cs *ContractSet, pkgPath, file string) error {
 }
 
 func NewContractSet() *ContractSet {
-	return &ContractSet{Funcs: map[string]*Contract{}, Preds: map[string]*Pred{}, Impl: map[string][]string{}, Uninterp: map[string]int{}}
+	return &ContractSet{Funcs: map[string]*Contract{}, Preds: map[string]*Pred{}, Impl: map[string][]string{}, Uninterp: map[string]int{}, Globals: map[string][]Clause{}}
 }
